@@ -102,6 +102,16 @@ def _ec():
             assert c.add(P, Q) == c.add(Q, P) and c.on_curve(c.add(P, Q))
             for R in pts[:5]:
                 assert c.add(c.add(P, Q), R) == c.add(P, c.add(Q, R))
+    # fixed-base table == affine definition
+    for c2 in toys[:8]:
+        for kk in range(-2, 2 * c2.n + 2):
+            assert c2.mul_g(kk) == c2.mul_affine(kk, c2.G), (c2.name, kk)
+    for cv in (k1, r1, b):
+        x = 0x7654321
+        for _ in range(6):
+            x = (x * 0x9E3779B97F4A7C15 + 777) % cv.n
+            assert cv.mul_g(x) == cv.mul_affine(x, cv.G)
+        assert cv.mul_g(cv.n - 1) == cv.neg(cv.G) and cv.mul_g(cv.n) is None and cv.mul_g(1) == cv.G
     # Jacobian ladder == affine definition: all k on small curves, sampled k on the big ones
     for c2 in toys[:6]:
         for kk in range(-2, 2 * c2.n + 2):
